@@ -99,9 +99,9 @@ def opNew (legacy : Bool) (a : List String) : Option St × String :=
         -- `create_from_file(cache_in_ram = true)` reads the file into a buffer, `false` hands the `File` over as a stream
         let isBuf := src == "buf" || src == "ffile-ram"
         if isBuf && pos0 != 0 then (none, "bad-op") else
-        -- the source
-        let source? : Option Source :=
-          if isBuf then some (.buffer te)
+        -- what the application supplies
+        let supplied? : Option Supplied :=
+          if isBuf then some (.buffer obj)
           else if src == "cur" || src == "file" || src == "bufrd" || src == "ffile-stream" then
             some (.stream { bytes := obj, pos := pos0, sched := [] })
           else if src.startsWith "chk:" then
@@ -109,11 +109,19 @@ def opNew (legacy : Bool) (a : List String) : Option St × String :=
             | some sc => some (.stream { bytes := obj, pos := pos0, sched := sc })
             | none => none
           else none
-        match source? with
+        match supplied? with
         | none => (none, "bad-op")
+        | some supplied =>
+        let cencN := if cenc == "null" then 0 else if cenc == "zlib" then 1 else if cenc == "deflate" then 2 else 3
+        -- `ObjectDesc::create_*`; flate2's output is the op's `te` argument (legacy = before D18: streams were accepted
+        -- with a content encoding and sent as they are)
+        let source? : Option Source :=
+          match supplied with
+          | .stream st => if legacy then some (.stream st) else objectSource (fun _ _ => te) cencN supplied
+          | _ => objectSource (fun _ _ => te) cencN supplied
+        match source? with
+        | none => (none, "ERR create")
         | some source =>
-          -- D18 (repaired): a stream source cannot be content-encoded, creation is refused
-          if !isBuf && cenc != "null" && !legacy then (none, "ERR create") else
           let l := source.len
           -- FileDesc::new
           if l > maxTransferLength cap maxSbn e b then (none, "ERR add") else
